@@ -195,6 +195,47 @@ func (e *schedEnv) scenario(name string) sched.Scenario {
 			})
 			return e.after(name, n, adm, &seen, nil)
 		}
+	case "S4-gossip-vs-switch":
+		// a block that acknowledges the node's frontier momentum Ma arrives by gossip while sync hands the node a longer branch
+		// without Ma: whichever wins the insert lock, afterwards the pool holds no block a node on the final chain refuses
+		// (checked by after(): pool-holds-unacceptable-block)
+		helper := e.freshNode(false)
+		mustInsert(helper, f.moms["Ma"])
+		tx, err := helper.Generate(&nom.AccountBlock{BlockType: nom.BlockTypeUserSend, Address: ops.Users[9].Address, ToAddress: ops.Users[8].Address,
+			TokenStandard: types.ZnnTokenStandard, Amount: ops.Big(3)})
+		if err != nil {
+			panic(err)
+		}
+		gossiped := vnode.CloneBlock(tx.Block)
+		helper.Destroy()
+		q := e.freshNode(true)
+		h0 := q.Height()
+		for _, skip := range []int{1, 0} {
+			if err := q.ProduceMomentumOnly(skip); err != nil {
+				panic(err)
+			}
+		}
+		branch := q.Range(h0+1, q.Height())
+		q.Destroy()
+		return func(s *vsync.Sched) func(x *sched.Exec) {
+			n := e.freshNode(false)
+			mustInsert(n, f.moms["Ma"])
+			var seen []tuple
+			var syncPanic interface{}
+			db.VerifWriteHook = func(site string) { vsync.Yield(site) }
+			s.Go("gossip", func() {
+				n.AddAccountBlocks([]*nom.AccountBlock{vnode.CloneBlock(gossiped)})
+			})
+			s.Go("sync", func() {
+				_, _, syncPanic = n.InsertChain(vnode.CloneBatch(branch))
+			})
+			return e.after(name, n, nil, &seen, func() string {
+				if syncPanic != nil {
+					return fmt.Sprintf("sync InsertChain panicked: %v", syncPanic)
+				}
+				return ""
+			})
+		}
 	case "S2-pillar-vs-sync":
 		return func(s *vsync.Sched) func(x *sched.Exec) {
 			n := e.freshNode(true)
@@ -280,12 +321,12 @@ func (e *schedEnv) after(name string, n *vnode.Node, adm map[string]bool, seen *
 		}
 		rep := map[string]interface{}{"part": "sched", "scenario": name, "schedule": x.Choices}
 		if x.Deadlock {
-			r.Violate("C14:sched:"+name+":deadlock", "deadlock", rep)
+			r.Violate(schedPrefix+":sched:"+name+":deadlock", "deadlock", rep)
 			return
 		}
 		for i, p := range x.Panics {
 			if p != nil {
-				r.Violate("C14:sched:"+name+":panic", fmt.Sprintf("thread %d panicked: %v", i, p), rep)
+				r.Violate(schedPrefix+":sched:"+name+":panic", fmt.Sprintf("thread %d panicked: %v", i, p), rep)
 				return
 			}
 		}
@@ -295,7 +336,7 @@ func (e *schedEnv) after(name string, n *vnode.Node, adm map[string]bool, seen *
 				if !strings.Contains(s, "panicked") {
 					key = "pooled-block-lost"
 				}
-				r.Violate("C14:sched:"+name+":"+key, s, rep)
+				r.Violate(schedPrefix+":sched:"+name+":"+key, s, rep)
 				return
 			}
 		}
@@ -308,35 +349,62 @@ func (e *schedEnv) after(name string, n *vnode.Node, adm map[string]bool, seen *
 					al = append(al, k)
 				}
 				sort.Strings(al)
-				r.Violate("C14:sched:"+name+":reader-saw-non-sequential-state", fmt.Sprintf("reader observed %s which no state of the sequential execution shows (admissible: %s)", t.val, strings.Join(al, " ")), rep)
+				r.Violate(schedPrefix+":sched:"+name+":reader-saw-non-sequential-state", fmt.Sprintf("reader observed %s which no state of the sequential execution shows (admissible: %s)", t.val, strings.Join(al, " ")), rep)
 			}
 		}
 		// final state: the node must be exactly what a fresh node fed the chain it reports would be
 		fnode := vnode.New(vnode.Options{Dir: e.c.TempDir(), NoPillars: true})
 		defer fnode.Destroy()
 		if _, err, pan := fnode.InsertChain(vnode.CloneBatch(n.Range(2, n.Height()))); err != nil || pan != nil {
-			r.Violate("C14:sched:"+name+":reported-chain-not-replayable", fmt.Sprintf("a fresh node refuses the chain the node reports: %v %v", err, pan), rep)
+			r.Violate(schedPrefix+":sched:"+name+":reported-chain-not-replayable", fmt.Sprintf("a fresh node refuses the chain the node reports: %v %v", err, pan), rep)
 			return
 		}
 		if n.FullDigest() != fnode.FullDigest() {
-			r.Violate("C14:sched:"+name+":store-differs-from-replay", "final raw store differs from a fresh node's replay of the chain the node reports: "+vnode.DiffKV(n.Raw(nil, true), fnode.Raw(nil, true)), rep)
+			r.Violate(schedPrefix+":sched:"+name+":store-differs-from-replay", "final raw store differs from a fresh node's replay of the chain the node reports: "+vnode.DiffKV(n.Raw(nil, true), fnode.Raw(nil, true)), rep)
 		}
 		if a, b := n.ConsensusDigest(4), fnode.ConsensusDigest(4); a != b {
-			r.Violate("C14:sched:"+name+":consensus-differs-from-replay", fmt.Sprintf("consensus answers differ from a fresh node's:\n N %s\n F %s", a, b), rep)
+			r.Violate(schedPrefix+":sched:"+name+":consensus-differs-from-replay", fmt.Sprintf("consensus answers differ from a fresh node's:\n N %s\n F %s", a, b), rep)
 		}
 		if inv := checkInvariants(n, e.f); inv != "" {
-			r.Violate("C14:sched:"+name+":pool-not-a-single-chain", inv, rep)
+			r.Violate(schedPrefix+":sched:"+name+":pool-not-a-single-chain", inv, rep)
 		}
 		for _, b := range n.PoolBlocks() {
 			if err, pan := fnode.AddAccountBlocks([]*nom.AccountBlock{vnode.CloneBlock(b)}); err != nil || pan != nil {
-				r.Violate("C14:sched:"+name+":pool-holds-unacceptable-block", fmt.Sprintf("pooled block %v@%d is refused by a fresh node on the same chain: %v %v", b.Address, b.Height, err, pan), rep)
+				r.Violate(schedPrefix+":sched:"+name+":pool-holds-unacceptable-block", fmt.Sprintf("pooled block %v@%d is refused by a fresh node on the same chain: %v %v", b.Address, b.Height, err, pan), rep)
 			}
 		}
 		r.Add("sched_outcomes", fmt.Sprintf("%s H=%d tip=%s pool=%d obs=%s", name, n.Height(), n.Frontier().Hash.String()[:6], len(n.PoolBlocks()), strings.Join(out, ";")))
 	}
 }
 
-var schedNames = []string{"S1-inserter-vs-readers", "S3-rollback-vs-readers", "S2-pillar-vs-sync"}
+// schedPrefix: the property under which schedule violations are reported (C03 runs S4 under its own name)
+var schedPrefix = "C14"
+
+// RunScenario explores one schedule scenario up to the preemption bound, reporting violations under the given property.
+func RunScenario(c *xs.Ctx, r *xs.Result, name, property string, bound int) {
+	schedPrefix = property
+	defer func() { schedPrefix = "C14" }()
+	e := newSchedEnv(c, r)
+	ex := &sched.Explorer{Scenario: e.scenario(name), Bound: bound, Deadline: c.Deadline}
+	ex.Explore()
+	r.Count("sched_executions", ex.Stats.Executions)
+	r.Count("sched_points", ex.Stats.Points)
+	if ex.Stats.Incomplete || ex.Stats.DivergentSkipped > 0 {
+		r.Incomplete = true
+		r.Note("%s sched %s: not completed at preemption bound %d (%d executions, %d divergent prefixes skipped)", property, name, bound, ex.Stats.Executions, ex.Stats.DivergentSkipped)
+	} else {
+		r.Add("sched_bound_completed", fmt.Sprintf("%s:%d", name, bound))
+	}
+}
+
+// ReplayScenario re-executes one recorded schedule of a scenario under the given property.
+func ReplayScenario(c *xs.Ctx, r *xs.Result, name, property string, choices []int) {
+	schedPrefix = property
+	defer func() { schedPrefix = "C14" }()
+	replaySched(c, r, name, choices)
+}
+
+var schedNames = []string{"S1-inserter-vs-readers", "S3-rollback-vs-readers", "S4-gossip-vs-switch", "S2-pillar-vs-sync"}
 
 func runSched(c *xs.Ctx, r *xs.Result) {
 	e := newSchedEnv(c, r)
